@@ -10,8 +10,13 @@
 (*          omitted, index = -1 for a single field; node 1 is the root     *)
 (*   roots: Seq(node id)                                                   *)
 (*   runs:  Seq([mode, prune: Seq(id), stop, log: Seq(<<id, path>>)])      *)
-(*          mode walk/inspect/preorder(+many); path = Seq of strings       *)
-(*          (field names, "#i" for indices), empty for inspect/preorder    *)
+(*          mode walk/inspect/preorder(+many); path = Seq of strings: the  *)
+(*          chain of callbacks that produced the visitor which receives    *)
+(*          Visit(node): "<Visit>" (the visitor returned by the parent's   *)
+(*          Visit), the field name, and for a list element "<VisitMany>"   *)
+(*          and "#i"; empty for inspect/preorder.  Every returned visitor  *)
+(*          is a fresh object in the harness, so a return value that the   *)
+(*          traversal drops shows up as a wrong chain.                     *)
 (* The definition Pre below is the specification; the explicit-stack       *)
 (* algorithm of ast.Walk is shown equivalent to it in Walk.tla.            *)
 (***************************************************************************)
@@ -29,12 +34,12 @@ Pre(N, P, n, path) ==
 PreKids(N, P, ch, k, path) ==
   IF k > Len(ch) THEN <<>>
   ELSE LET c == ch[k]
-           p2 == IF c[2] < 0 THEN Append(path, c[1]) ELSE path \o <<c[1], Idx(c[2])>>
+           p2 == IF c[2] < 0 THEN path \o <<"<Visit>", c[1]>> ELSE path \o <<"<Visit>", c[1], "<VisitMany>", Idx(c[2])>>
        IN Pre(N, P, c[3], p2) \o PreKids(N, P, ch, k + 1, path)
 RECURSIVE PreRoots(_, _, _, _, _)
 PreRoots(N, P, roots, k, many) ==
   IF k > Len(roots) THEN <<>>
-  ELSE Pre(N, P, roots[k], IF many THEN <<Idx(k - 1)>> ELSE <<>>) \o PreRoots(N, P, roots, k + 1, many)
+  ELSE Pre(N, P, roots[k], IF many THEN <<"<VisitMany>", Idx(k - 1)>> ELSE <<>>) \o PreRoots(N, P, roots, k + 1, many)
 
 ToSet(s) == {s[i] : i \in 1..Len(s)}
 Ids(s) == [i \in 1..Len(s) |-> s[i][1]]
